@@ -105,6 +105,7 @@ class Profile:
         self.pattern_columns = True            # contains(s, u): column-valued pattern
         self.pattern_exprs = True              # contains(s, tolower(u))
         self.max_list = 3
+        self.field_chains = True               # x eq 1 or x eq 2 or x eq null
         self.unique_leaves = False             # C09: every leaf occurrence unique
         self.__dict__.update(kw)
         self._uid = 0
@@ -213,10 +214,45 @@ def gen_arg(rng, p, fname, i, typ, depth):
     return gen(rng, p, typ, depth)
 
 
+def gen_field_chain(rng, p):
+    """Idiomatic runs an optimising translation would recognise: 2..6 comparisons of ONE
+    field joined by one connective (`x eq 1 or x eq 2 or x eq null`, `x ne 1 and x ne null`,
+    `x ge 1 and x le 7`), literals drawn with repetition, the null literal among them."""
+    typ = rng.choice(sorted((p.types - {"bool"}) & {"int", "str", "float", "datetime"}))
+    cols = _cols(p, typ)
+    if not cols:
+        return None
+    col = T.ident(rng.choice(cols))
+    con = rng.choice(["or", "and"])
+    shape = rng.random()
+    n = rng.randint(2, 6)
+    atoms = []
+    for _ in range(n):
+        if shape < 0.6:
+            op = "eq" if con == "or" else "ne"
+        elif shape < 0.8:
+            op = rng.choice(["eq", "ne"])
+        else:
+            op = rng.choice(["lt", "le", "gt", "ge", "eq", "ne"])
+        if op in ("eq", "ne") and p.null_cmp and rng.random() < 0.25:
+            lit = T.lit("null", "null")
+        else:
+            lit = gen_lit(rng, p, typ)
+        atoms.append(("cmp", op, col, lit))
+    t = atoms[0]
+    for a in atoms[1:]:
+        t = ("bool", con, t, a)
+    return t
+
+
 def gen_bool(rng, p, depth):
     if depth <= 0:
         return gen_atom(rng, p, 0)
     r = rng.random()
+    if p.field_chains and r < 0.06:
+        t = gen_field_chain(rng, p)
+        if t is not None:
+            return t
     if r < 0.40:
         return gen_atom(rng, p, depth)
     if r < 0.80:
